@@ -1079,3 +1079,80 @@ def decision_leaves(expr):
             out.append((frozenset(conds), e))
     walk(expr, [])
     return out
+
+
+def _or_values_to_ifexp(expr):
+    """(a or b).m(...)  ->  (a if a else b).m(...): an `or` used as a VALUE (receiver of an attribute) picks its first truthy operand"""
+    import copy
+
+    class T(ast.NodeTransformer):
+        def visit_Attribute(self, node):
+            self.generic_visit(node)
+            v = node.value
+            if isinstance(v, ast.BoolOp) and isinstance(v.op, ast.Or):
+                cur = v.values[-1]
+                for x in reversed(v.values[:-1]):
+                    cur = ast.IfExp(test=copy.deepcopy(x), body=x, orelse=cur)
+                node.value = cur
+            return node
+    return ast.fix_missing_locations(T().visit(copy.deepcopy(expr)))
+
+
+def _test_atoms(test, out):
+    if isinstance(test, ast.UnaryOp) and isinstance(test.op, ast.Not):
+        return _test_atoms(test.operand, out)
+    if isinstance(test, ast.BoolOp):
+        for v in test.values:
+            _test_atoms(v, out)
+        return out
+    if isinstance(test, ast.IfExp):
+        for v in (test.test, test.body, test.orelse):
+            _test_atoms(v, out)
+        return out
+    lits = _nnf(test, True, [])
+    out.add(lits[0][0])
+    return out
+
+
+def _eval_test(test, assign) -> bool:
+    if isinstance(test, ast.UnaryOp) and isinstance(test.op, ast.Not):
+        return not _eval_test(test.operand, assign)
+    if isinstance(test, ast.BoolOp):
+        vals = [_eval_test(v, assign) for v in test.values]
+        return all(vals) if isinstance(test.op, ast.And) else any(vals)
+    if isinstance(test, ast.IfExp):
+        return _eval_test(test.body if _eval_test(test.test, assign) else test.orelse, assign)
+    if isinstance(test, ast.Constant):
+        return bool(test.value)
+    src, pol = _nnf(test, True, [])[0]
+    return assign[src] if pol else not assign[src]
+
+
+def tables_equivalent(e1, e2, max_atoms: int = 12):
+    """Do two conditional-expression trees pick the same leaf (same source text) under every truth assignment of their atomic tests?
+    Returns (True, None) or (False, counter-example) or (None, reason) when there are too many atoms."""
+    import itertools
+    t1, t2 = lift_conditionals(_or_values_to_ifexp(e1)), lift_conditionals(_or_values_to_ifexp(e2))
+    atoms = set()
+
+    def collect(e):
+        if isinstance(e, ast.IfExp):
+            _test_atoms(e.test, atoms)
+            collect(e.body)
+            collect(e.orelse)
+    collect(t1)
+    collect(t2)
+    atoms = sorted(atoms)
+    if len(atoms) > max_atoms:
+        return None, f"{len(atoms)} atomic conditions"
+
+    def leaf(e, assign):
+        while isinstance(e, ast.IfExp):
+            e = e.body if _eval_test(e.test, assign) else e.orelse
+        return ast.unparse(e)
+    for bits in itertools.product((False, True), repeat=len(atoms)):
+        assign = dict(zip(atoms, bits))
+        a, b = leaf(t1, assign), leaf(t2, assign)
+        if a != b:
+            return False, {"when": {k: v for k, v in assign.items()}, "got": a[:120], "expected": b[:120]}
+    return True, None
